@@ -5,6 +5,8 @@ import AGV.Core.Cache
 import AGV.Spec.Exec
 import AGV.Spec.Cache
 import AGV.Model.CacheControl
+import AGV.Model.CacheDecl
+import AGV.Gen.C20Decl
 
 open AGV AGV.Sexp AGV.Core AGV.Core.Cache
 
@@ -13,6 +15,10 @@ open AGV.Model.CacheControl
 
 def idAbstract := "C20-abstract-type-hints-ignored"
 def idSpread := "C20-spread-keeps-parent-type"
+def idMerged := "C20-merged-object-own-hint-ignored"
+
+def declDefects (known : List String) : Model.CacheDecl.Defects :=
+  { mergedOwnHintIgnored := known.contains idMerged }
 
 def defects (known : List String) : Defects :=
   { abstractTypeIgnoresImplementors := known.contains idAbstract
@@ -31,6 +37,21 @@ def hint? : Sexp → Option (Key × CC)
   | .list [.atom "hint", .str t, f, p, m] => do
     some (⟨String.ofList t, ← Decode.optStr? f⟩, ⟨← bool? p, ← int? m⟩)
   | _ => none
+
+def partsOnly? : Sexp → Option (String × CC)
+  | .list [.atom "partsonly", .str t, p, m] => do some (String.ofList t, ⟨← bool? p, ← int? m⟩)
+  | _ => none
+
+def isHint : Sexp → Bool
+  | .list (.atom "hint" :: _) => true
+  | _ => false
+
+def hintSexp (p : Key × CC) : Sexp :=
+  .list [.atom "hint", .str p.1.ty.toList,
+         match p.1.field with
+         | some f => .str f.toList
+         | none => .atom "none",
+         .atom (if p.2.isPublic then "true" else "false"), .atom (toString p.2.maxAge)]
 
 structure Req where
   doc : Doc
@@ -53,58 +74,93 @@ def implCC? : Sexp → Option CC
   | .list [.atom _, p, m, _] => do some ⟨← bool? p, ← int? m⟩
   | _ => none
 
-def outStr (items : List CC) : String :=
-  render (.list (.atom "out" :: items.map (ccSexp "cc") ++ [ccSexp "batch" (match items with
-    | [c] => c
-    | cs => batchPolicy cs)]))
+/-- `(out (cc …)… (batch …) (stream …) (reg (hint …)…))` from the policies of the requests and the
+    registry table -/
+def outStr (items : List CC) (reg : Hints) : String :=
+  render (.list (.atom "out" :: items.map (ccSexp "cc") ++
+    [ccSexp "batch" (match items with
+      | [c] => c
+      | cs => batchPolicy cs),
+     (match items with
+      | c :: _ => ccSexp "stream" c
+      | [] => .list [.atom "rejected"]),
+     .list (.atom "reg" :: (Model.CacheDecl.nonDefault reg).map hintSexp)]))
+
+/-- the schema and the declared tables of the case are the constants the theorems
+    `c20_declared_table_wf` … are about (Gen/C20Decl.lean) -/
+def embedded (tag : String) (S : Schema) (H : Hints) (parts : List (String × CC)) : Bool :=
+  match Gen.C20Decl.variant? tag with
+  | some (S', H', parts') =>
+    S.types == S'.types && S.query == S'.query && S.mutation == S'.mutation &&
+    S.subscription == S'.subscription && decide (H = H') && decide (parts = parts')
+  | none => false
 
 def judge (known : List String) (case impl : String) : JudgeOut :=
   match parse case with
-  | some (.list (.atom "case" :: _ :: s :: .list hs :: rs)) =>
-    match Decode.schema? s, hs.mapM hint?, rs.mapM req? with
-    | some S, some H, some reqs =>
-      let model (D : Defects) (extra : Nat) : String :=
-        outStr (reqs.map (fun r => policy D S H r.doc (fuelBound r.doc + extra)))
+  | some (.list (.atom "case" :: .str tag :: s :: .list hs :: rs)) =>
+    match Decode.schema? s, (hs.filter isHint).mapM hint?, (hs.filter (!isHint ·)).mapM partsOnly?, rs.mapM req? with
+    | some S, some H, some parts, some reqs =>
+      if !embedded (String.ofList tag) S H parts then
+        .viol "stale-embedded-table" "the schema / declared hint table of the case is not the constant of Gen/C20Decl.lean (run tools/c20_declared.py)"
+      else
+      -- the model: the visitor over the table the derive macros REGISTER
+      let model (D : Defects) (DD : Model.CacheDecl.Defects) (extra : Nat) : String :=
+        let HR := Model.CacheDecl.registered DD H parts
+        outStr (reqs.map (fun r => policy D S HR r.doc (fuelBound r.doc + extra))) HR
       let D := defects known
-      let mK := model D 0
-      -- what each response may contain (any world), and the bound it puts on the policy
+      let DD := declDefects known
+      let mK := model D DD 0
+      -- what each response may contain (any world), and the bound the DECLARED hints put on the policy
       let reaches := reqs.map (fun r =>
         (Spec.Cache.reachRequest S r.doc r.opName r.vars (Spec.Exec.fuelBound r.doc)).map (hintOf H))
       let reaches2 := reqs.map (fun r =>
         (Spec.Cache.reachRequest S r.doc r.opName r.vars (Spec.Exec.fuelBound r.doc + 3)).map (hintOf H))
-      let spec := render (.list (.atom "bound" :: reaches.map (fun hs => ccSexp "cc" (Spec.Cache.combine hs))))
-      if mK ≠ model D 3 ∨ reaches.map Spec.Cache.combine ≠ reaches2.map Spec.Cache.combine then
+      let spec := render (.list (.atom "bound" :: reaches.map (fun hs => ccSexp "cc" (Spec.Cache.combine hs)) ++
+        [.list (.atom "reg" :: (Model.CacheDecl.nonDefault H).map hintSexp)]))
+      if mK ≠ model D DD 3 ∨ reaches.map Spec.Cache.combine ≠ reaches2.map Spec.Cache.combine then
         .viol "fuel-dependent" "fuel-dependent"
       else
         match parse impl with
         | some (.list (.atom "out" :: outs)) =>
-          let items := outs.dropLast
+          let items := outs.take reqs.length
+          let okItem (o : Sexp) (r : Req) (hs : List CC) : Bool :=
+            match implCC? o with
+            | none => false
+            | some c =>
+              hs.all (fun h => decide (Spec.Cache.noLooser c h)) &&
+              (!Spec.Cache.objOnly S r.doc (Spec.Exec.fuelBound r.doc) || c == Spec.Cache.combine hs)
           let ok : Bool :=
-            items.length == reqs.length &&
-            (match outs.getLast? with
+            outs.length == reqs.length + 3 &&
+            (match outs[reqs.length]? with
              | some b => (match implCC? b with
                | some bc => (reaches.all (fun hs => hs.all (fun h => decide (Spec.Cache.noLooser bc h))))
                | none => false)
              | none => false) &&
-            ((items.zip (reqs.zip reaches)).all (fun (o, r, hs) =>
-              match implCC? o with
-              | none => false
-              | some c =>
-                hs.all (fun h => decide (Spec.Cache.noLooser c h)) &&
-                (!Spec.Cache.objOnly S r.doc (Spec.Exec.fuelBound r.doc) || c == Spec.Cache.combine hs)))
+            ((items.zip (reqs.zip reaches)).all (fun (o, r, hs) => okItem o r hs)) &&
+            -- the streaming entry point answers the first request under the same bound
+            (match outs[reqs.length + 1]?, reqs.head?, reaches.head? with
+             | some o, some r, some hs => okItem o r hs
+             | _, _, _ => false) &&
+            -- the registry holds exactly the declared hints
+            (match outs[reqs.length + 2]? with
+             | some (.list (.atom "reg" :: rg)) =>
+               (match rg.mapM hint? with
+                | some R => decide (R = Model.CacheDecl.nonDefault H)
+                | none => false)
+             | _ => false)
           if ok then
             if impl = mK then .ok else .tie mK spec
           else if impl = mK then
-            let mA := model { D with abstractTypeIgnoresImplementors := false } 0
-            let mS := model { D with spreadKeepsParentType := false } 0
+            let mA := model { D with abstractTypeIgnoresImplementors := false } DD 0
+            let mS := model { D with spreadKeepsParentType := false } DD 0
+            let mM := model D { DD with mergedOwnHintIgnored := false } 0
             if D.abstractTypeIgnoresImplementors ∧ mA ≠ mK then .known idAbstract mK spec
             else if D.spreadKeepsParentType ∧ mS ≠ mK then .known idSpread mK spec
-            else match known.filter (·.startsWith "C20-") with
-              | id :: _ => .known id mK spec
-              | [] => .viol mK spec
+            else if DD.mergedOwnHintIgnored ∧ mM ≠ mK then .known idMerged mK spec
+            else .viol mK spec
           else .viol mK spec
         | _ => .viol mK "unreadable impl output"
-    | _, _, _ => .viol "bad-case" "undecodable case"
+    | _, _, _, _ => .viol "bad-case" "undecodable case"
   | _ => .viol "bad-case" "undecodable case"
 
 end AGV.Drive.C20
